@@ -162,6 +162,25 @@ pub open spec fn posts(fs: Seq<TxnWorkFrame>) -> Seq<(Transfer, Payload)>
     }
 }
 
+/// the retirement as applied on commit: the transactional state is replaced by its outcome and the delivery is settled
+pub open spec fn retired(d: Disposition) -> Disposition {
+    match d.state {
+        Some(DeliveryState::TransactionalState(ts)) => Disposition { state: (match ts.outcome { Some(o) => Some(outcome_to_state(o)), None => None }), settled: true, ..d },
+        _ => Disposition { settled: true, ..d },
+    }
+}
+/// the retirements among the work frames, in order
+pub open spec fn retires(fs: Seq<TxnWorkFrame>) -> Seq<Disposition>
+    decreases fs.len()
+{
+    if fs.len() == 0 { Seq::empty() } else {
+        match fs.last() {
+            TxnWorkFrame::Retire(d) => retires(fs.drop_last()).push(retired(d)),
+            TxnWorkFrame::Post { .. } => retires(fs.drop_last()),
+        }
+    }
+}
+
 impl ResourceTransaction {
 //@@ fn file=fe2o3-amqp/src/transaction/manager.rs impl=`impl ResourceTransaction` name=new
 //@@ spec
@@ -169,10 +188,14 @@ impl ResourceTransaction {
 //@@ end
 
 //@@ fn file=fe2o3-amqp/src/transaction/manager.rs impl=`impl ResourceTransaction` name=on_incoming_post
-//@@ subst `transfer.delivery_id.map(|delivery_id| {` => `transfer.delivery_id.map(|delivery_id: u32| -> (o: Disposition) {` rule=optional-R5
+//@@ subst `transfer.delivery_id.map(|delivery_id| {` => `transfer.delivery_id.map(|delivery_id: u32| -> (o: Disposition) ensures o.role == Role::Receiver && o.first == delivery_id && o.last is None && o.state is Some && o.state->Some_0 is TransactionalState && o.state->Some_0->TransactionalState_0.txn_id == txn_id && o.state->Some_0->TransactionalState_0.outcome is Some {` rule=optional-R18
 //@@ spec
     ensures
         final(self).frames@ == old(self).frames@.push(TxnWorkFrame::Post { transfer, payload }),   // [C18.post.buffered] a transactional post is appended to the transaction's work, unchanged, after everything posted before
+        (transfer.settled == Some(true) || transfer.delivery_id is None) ==> r is None,
+        !(transfer.settled == Some(true)) && transfer.delivery_id is Some ==> r is Some && r->Some_0.role == Role::Receiver && r->Some_0.first == transfer.delivery_id->Some_0 && r->Some_0.last is None
+            && r->Some_0.state is Some && r->Some_0.state->Some_0 is TransactionalState && r->Some_0.state->Some_0->TransactionalState_0.txn_id == txn_id
+            && r->Some_0.state->Some_0->TransactionalState_0.outcome is Some,                                // [C18.post.provisional-outcome] an unsettled post is answered with a disposition that covers exactly that delivery and carries a transactional state naming ITS transaction together with the presumptive terminal outcome (AMQP 4.4.2)
 //@@ end
 }
 
@@ -217,23 +240,27 @@ impl TxnSession {
         old(self).txns().contains_key(txn_id) ==> final(self).txns() == old(self).txns().remove(txn_id),   // [C18.discharge.once-commit] the id is consumed by the discharge whatever the outcome: a second discharge finds it unknown
         old(self).txns().contains_key(txn_id) && r is Ok ==> r->Ok_0 is Ok
             && final(self).session.handed@ =~= old(self).session.handed@ + posts(old(self).txns()[txn_id].frames@),   // [C18.commit.all-handed-in-order] after a successful commit ALL posted messages have been handed to the session, in posting order, with the transactional state replaced by its outcome
+        old(self).txns().contains_key(txn_id) && r is Ok ==> final(self).session.disposed@ =~= old(self).session.disposed@ + retires(old(self).txns()[txn_id].frames@),   // [C18.commit.retirements-applied] ... and every retirement made under the transaction is applied, in order, as a SETTLED disposition carrying the outcome named in its transactional state
         old(self).txns().contains_key(txn_id) && r is Ok ==> final(self).session.delivered@ =~= old(self).session.delivered@ + posts(old(self).txns()[txn_id].frames@),   // [C18.commit.all-in-order] ... and every one of them is DELIVERED, to the link it was posted on: a commit answered Accepted must not have dropped or re-routed a post (the replay goes by the handle NUMBER as attached at commit time)
         old(self).txns().contains_key(txn_id) && r is Ok ==> forall|i: int| 0 <= i < old(self).txns()[txn_id].frames@.len() && (#[trigger] old(self).txns()[txn_id].frames@[i]) is Post
             ==> !old(self).session.open@.contains(old(self).txns()[txn_id].frames@[i]->Post_transfer.handle.0),       // [C18.commit.replay-not-inside-a-delivery] the posts of a committed transaction are not replayed into the middle of another delivery of the same link: while a plain multi-frame delivery is in progress on the link (more=true seen, last frame not yet) the replayed frames would be spliced into it -- the link fails with InconsistentFieldInMultiFrameDelivery and both messages are lost although the commit is answered Accepted
 //@@ entry
         let ghost fs0 = if self.txn_manager.txns@.contains_key(txn_id) { self.txn_manager.txns@[txn_id].frames@ } else { Seq::empty() };
         let ghost d0 = self.session.handed@;
+        let ghost dd0 = self.session.disposed@;
 //@@ loop 0
         invariant
             __it0.seq() == fs0,
             old(self).txn_manager.txns@.contains_key(txn_id),
             self.txn_manager.txns@ == old(self).txn_manager.txns@.remove(txn_id),
             self.session.handed@ =~= d0 + posts(fs0.take(__it0.index@)),
+            self.session.disposed@ =~= dd0 + retires(fs0.take(__it0.index@)),
 //@@ loop 1
         invariant
             old(self).txn_manager.txns@.contains_key(txn_id),
             self.txn_manager.txns@ == old(self).txn_manager.txns@.remove(txn_id),
             self.session.handed@ =~= d0 + posts(fs0.take(__it0.index@ + 1)),
+            self.session.disposed@ =~= dd0 + retires(fs0.take(__it0.index@ + 1)),
 //@@ loopstart 0
             proof {
                 let i = __it0.index@;
